@@ -16,14 +16,14 @@ Tr == ndJsonDeserialize(IOEnv.TRACE)
 T == (1..12) \cup {91}
 ETIMEDOUT == 110
 NoOp == [op |-> "none", ph |-> "none", res |-> 0, to |-> 0, us |-> 0, snap |-> {}, cnt |-> 0]
-VARIABLES l, owner, W, pend, inst
-vars == <<l, owner, W, pend, inst>>
-Init == l = 1 /\ owner = 0 /\ W = {} /\ pend = [t \in T |-> NoOp] /\ inst = [t \in T |-> 0] /\ TLCSet(1, 0)
+VARIABLES l, owner, W, pend, inst, intr
+vars == <<l, owner, W, pend, inst, intr>>
+Init == l = 1 /\ owner = 0 /\ W = {} /\ pend = [t \in T |-> NoOp] /\ inst = [t \in T |-> 0] /\ intr = {} /\ TLCSet(1, 0)
 Ev(e) == l <= Len(Tr) /\ Tr[l].e = e /\ l' = l + 1
 R == Tr[l]
-Reset == Ev("Reset") /\ owner' = 0 /\ W' = {} /\ pend' = [t \in T |-> NoOp] /\ inst' = [t \in T |-> 0]
-Acq == Ev("Acq") /\ owner = 0 /\ pend[R.t].op = "none" /\ owner' = R.t /\ UNCHANGED <<W, pend, inst>>
-Rel == Ev("Rel") /\ owner = R.t /\ pend[R.t].op = "none" /\ owner' = 0 /\ UNCHANGED <<W, pend, inst>>
+Reset == Ev("Reset") /\ owner' = 0 /\ W' = {} /\ pend' = [t \in T |-> NoOp] /\ inst' = [t \in T |-> 0] /\ intr' = {}
+Acq == Ev("Acq") /\ owner = 0 /\ pend[R.t].op = "none" /\ owner' = R.t /\ UNCHANGED <<W, pend, inst, intr>>
+Rel == Ev("Rel") /\ owner = R.t /\ pend[R.t].op = "none" /\ owner' = 0 /\ UNCHANGED <<W, pend, inst, intr>>
 Inv == /\ Ev("Inv") /\ pend[R.t].op = "none"
        /\ IF R.op = "cvwait"
           THEN /\ owner = R.t
@@ -32,43 +32,49 @@ Inv == /\ Ev("Inv") /\ pend[R.t].op = "none"
           ELSE /\ pend' = [pend EXCEPT ![R.t] = [NoOp EXCEPT !.op = R.op, !.ph = "inv",
                                                  !.snap = {<<w, inst[w]>> : w \in W}]]
                /\ UNCHANGED inst
-       /\ UNCHANGED <<owner, W>>
+       /\ UNCHANGED <<owner, W, intr>>
 (* waiter *)
 Enter(t) == /\ pend[t].op = "cvwait" /\ pend[t].ph = "inv" /\ owner = t
-            /\ owner' = 0 /\ W' = W \cup {t} /\ pend' = [pend EXCEPT ![t].ph = "waiting"] /\ UNCHANGED <<l, inst>>
+            /\ owner' = 0 /\ W' = W \cup {t} /\ pend' = [pend EXCEPT ![t].ph = "waiting"] /\ UNCHANGED <<l, inst, intr>>
 TimeOut(t) == /\ pend[t].op = "cvwait" /\ pend[t].ph = "waiting" /\ t \in W /\ pend[t].to # 2
-              /\ W' = W \ {t} /\ pend' = [pend EXCEPT ![t].ph = "woken", ![t].res = -1] /\ UNCHANGED <<l, owner, inst>>
+              /\ W' = W \ {t} /\ pend' = [pend EXCEPT ![t].ph = "woken", ![t].res = -1] /\ UNCHANGED <<l, owner, inst, intr>>
+\* an interrupted waiter leaves the waiting set with the interrupter's errno (res -2 marks it)
+IntrOut(t) == /\ pend[t].op = "cvwait" /\ pend[t].ph = "waiting" /\ t \in W /\ t \in intr
+              /\ W' = W \ {t} /\ pend' = [pend EXCEPT ![t].ph = "woken", ![t].res = -2] /\ UNCHANGED <<l, owner, inst, intr>>
 Reacq(t) == /\ pend[t].op = "cvwait" /\ pend[t].ph = "woken" /\ owner = 0
-            /\ owner' = t /\ pend' = [pend EXCEPT ![t].ph = "relocked"] /\ UNCHANGED <<l, W, inst>>
+            /\ owner' = t /\ pend' = [pend EXCEPT ![t].ph = "relocked"] /\ UNCHANGED <<l, W, inst, intr>>
 (* notifiers *)
 Wake(w) == [pend EXCEPT ![w].ph = "woken", ![w].res = 0]
 LinNotifyOne(t) ==
   /\ pend[t].op = "notify_one" /\ pend[t].ph = "inv"
   /\ IF W = {} THEN pend' = [pend EXCEPT ![t].ph = "lin", ![t].res = 0] /\ UNCHANGED W
      ELSE \E w \in W : W' = W \ {w} /\ pend' = [Wake(w) EXCEPT ![t].ph = "lin", ![t].res = w]
-  /\ UNCHANGED <<l, owner, inst>>
+  /\ UNCHANGED <<l, owner, inst, intr>>
 WakeForAll(t) ==
   /\ pend[t].op = "notify_all" /\ pend[t].ph = "inv"
   /\ \E w \in W : W' = W \ {w} /\ pend' = [Wake(w) EXCEPT ![t].cnt = @ + 1]
-  /\ UNCHANGED <<l, owner, inst>>
+  /\ UNCHANGED <<l, owner, inst, intr>>
 Resp == /\ Ev("Resp")
         /\ LET t == R.t  p == pend[t] IN
            /\ p.op = R.op
-           /\ CASE R.op = "cvwait" -> /\ p.ph = "relocked" /\ owner = t /\ p.res = R.r
-                                      /\ (R.r # 0 => R.en = ETIMEDOUT /\ R.dt >= p.us)
+           /\ CASE R.op = "cvwait" -> /\ p.ph = "relocked" /\ owner = t
+                                      /\ (IF p.res = 0 THEN R.r = 0
+                                          ELSE IF p.res = -1 THEN R.r = -1 /\ R.en = ETIMEDOUT /\ R.dt >= p.us
+                                          ELSE R.r = -1 /\ R.en # ETIMEDOUT)
                 [] R.op = "notify_one" -> p.ph = "lin" /\ p.res = R.r
                 [] R.op = "notify_all" -> /\ p.cnt = R.r
                                           /\ \A s \in p.snap : ~(s[1] \in W /\ inst[s[1]] = s[2])
            /\ pend' = [pend EXCEPT ![t] = NoOp]
-        /\ UNCHANGED <<owner, W, inst>>
+        /\ UNCHANGED <<owner, W, inst, intr>>
+Interrupt == Ev("Interrupt") /\ intr' = intr \cup {R.t} /\ UNCHANGED <<owner, W, pend, inst>>
 Settle == /\ Ev("Settle")
           /\ \A i \in 1..Len(R.blocked) : R.blocked[i] \in W
-          /\ UNCHANGED <<owner, W, pend, inst>>
+          /\ UNCHANGED <<owner, W, pend, inst, intr>>
 Quiesce == /\ Ev("Quiesce") /\ \A t \in T : pend[t].op = "none"
            /\ W = {} /\ owner = 0 /\ R.locked = 0
-           /\ UNCHANGED <<owner, W, pend, inst>>
-Next == \/ Reset \/ Acq \/ Rel \/ Inv \/ Resp \/ Settle \/ Quiesce
-        \/ \E t \in T : Enter(t) \/ TimeOut(t) \/ Reacq(t) \/ LinNotifyOne(t) \/ WakeForAll(t)
+           /\ UNCHANGED <<owner, W, pend, inst, intr>>
+Next == \/ Reset \/ Acq \/ Rel \/ Inv \/ Resp \/ Interrupt \/ Settle \/ Quiesce
+        \/ \E t \in T : Enter(t) \/ TimeOut(t) \/ IntrOut(t) \/ Reacq(t) \/ LinNotifyOne(t) \/ WakeForAll(t)
 Spec == Init /\ [][Next]_vars
 NotAccepted == l <= Len(Tr)
 Progress == TLCSet(1, IF TLCGet(1) < l THEN l ELSE TLCGet(1))
